@@ -183,12 +183,12 @@ CLAIMED = {
              "shell [a, b) is twice the difference of the half-chords, for every shell and every distance; hence every entry of the "
              "Daun degree-0 projected basis and of the onion-peeling weight matrix W (all i, j) equals the Abel integral of its "
              "rectangular basis function, whose documented formula is also proved; the Abel integral of the ramp (R−r)₊ in closed form "
-             "(fundamental theorem of calculus), hence every entry of the Daun degree-1 basis (all i, j) equals the Abel integral of its "
-             "hat function. Tie: Lean matrices (onionW, twoPointD, "
+             "and of the quadratic ramp (R−r)₊² (fundamental theorem of calculus), hence every entry of the Daun degree-1 and degree-2 "
+             "bases (all i, j) equals the Abel integral of its hat function / quadratic B-spline. Tie: Lean matrices (onionW, twoPointD, "
              "threePointD, daun0-2) vs the implementation's arrays entrywise. Oracle: scipy quadrature of the defining integrals "
              "for daun 0-3 (degree 3 via the clamped cubic Hermite spline), basex χ_k/ρ_k for several σ, rbasex p_{R;n}, and the "
              "inverse-Abel integrals of the two-/three-point local interpolants; onion D·W = 1.",
-        note="Partial: theorem-backed families are daun degrees 0-1 and onion-peeling W; the other families are quadrature-backed "
+        note="Partial: theorem-backed families are daun degrees 0-2 and onion-peeling W; the other families are quadrature-backed "
              "(1e-9) at special and random indices. Trusted: Lean kernel + standard axioms; scipy.integrate.quad; the reading of "
              "each basis function from the documentation; rbasex P[n][0,0]=1 (n>0) is a documented convention, not an integral.",
         technique="Lean 4 proof (Lebesgue integral of indicators, FTC for the ramp, real square-root/log algebra) + entrywise differential check + quadrature oracle",
